@@ -2,8 +2,8 @@
 CONFIG = dict(
     props=["DhcpProofs.Props.C01"],
     facts=["DhcpProofs.Facts.V4Codec"],
-    streams=[("v4enc", 6000, 60000), ("v4dec", 4000, 40000)],
-    oracles=[("c01", 6000, 80000)],
+    streams=[("v4enc", 6000, 180000), ("v4dec", 4000, 120000)],
+    oracles=[("c01", 6000, 240000)],
     full_statement_proved=True,
     missing="",
     rule="v4enc: generated packets (3/4 inside the encodable domain, option value lengths concentrated on the 0/255/256/510/511/765 boundaries) encoded by ToBytes three times and by the Lean model; v4dec: encoder output, hand-laid, truncated, perturbed and random wire bytes decoded by FromBytes and by the model; oracle c01: FromBytes(ToBytes(p)) == p on the domain. non-trivial = carries at least one option (enc) / longer than the fixed header (dec); distinct = distinct operation lines",
